@@ -222,7 +222,9 @@ func VerifC19Collections() {
 		}
 		rules = &validate.FieldRules{Type: &validate.FieldRules_Repeated{Repeated: r}}
 	}
-	kind := protoreflect.StringKind
+	// element kind of the list: the collection rules do not depend on it
+	kind := []protoreflect.Kind{protoreflect.StringKind, protoreflect.Int32Kind, protoreflect.Int64Kind, protoreflect.DoubleKind, protoreflect.BoolKind,
+		protoreflect.EnumKind, protoreflect.BytesKind, protoreflect.MessageKind}[verif.Choice("elementKind", 8)]
 	if isMap {
 		kind = protoreflect.MessageKind
 	}
